@@ -66,8 +66,15 @@ type Exec struct {
 	Unflushed    bool
 	lastUnstable *MNode
 	// EverWritten: per object id, the block indices that ever held written data
-	EverWritten map[int]map[uint64]bool
-	HoleFill    map[int]int // per object id, upper bound of blocks allocated by reads of holes
+	// SpaceMayBind: the disk or the inode table may run out, so the server's status decides
+	// whether a feasible request happened; LastOK is the status of the last request.
+	SpaceMayBind       bool
+	LastOK             bool
+	FailedForResources int
+	ShortWrites        int
+	ServerFaults       int // replies NFS3ERR_SERVERFAULT (e.g. the journal refused the transaction)
+	EverWritten        map[int]map[uint64]bool
+	HoleFill           map[int]int // per object id, upper bound of blocks allocated by reads of holes
 }
 
 // UsedUpper is an upper bound of the data blocks the live objects occupy.
@@ -171,6 +178,16 @@ func (x *Exec) status(st nt.Nfsstat3, wantOK bool, refs ...Ref) error {
 		x.NFailed++
 	}
 	x.Log[len(x.Log)-1] += fmt.Sprintf(" -> %d", st)
+	x.LastOK = st == nt.NFS3_OK
+	if st == nt.NFS3ERR_SERVERFAULT {
+		x.ServerFaults++
+	}
+	if st != nt.NFS3_OK && wantOK && x.SpaceMayBind {
+		// On a (nearly) full disk or inode table a feasible request may fail for lack of
+		// resources; then it must leave no trace (the caller checks that).
+		x.FailedForResources++
+		return nil
+	}
 	if (st == nt.NFS3_OK) != wantOK {
 		if wantOK {
 			return x.errk("status", "the server refused (status %d) a request the reference performs", st)
@@ -236,7 +253,7 @@ func (x *Exec) Getattr(r Ref) error {
 	if err := x.status(res.Status, r.N != nil, r); err != nil {
 		return err
 	}
-	if r.N != nil {
+	if r.N != nil && x.LastOK {
 		return x.checkAttr(res.Resok.Obj_attributes, r.N, "GETATTR")
 	}
 	return nil
@@ -269,7 +286,7 @@ func (x *Exec) Setattr(r Ref, size *uint64, touch bool) error {
 	if err := x.status(res.Status, want, r); err != nil {
 		return err
 	}
-	if want {
+	if want && x.LastOK {
 		if size != nil {
 			r.N.Truncate(*size)
 			x.Mutations++
@@ -296,7 +313,7 @@ func (x *Exec) Lookup(dir Ref, name string) error {
 	if err := x.status(res.Status, n != nil, dir); err != nil {
 		return err
 	}
-	if n != nil {
+	if n != nil && x.LastOK {
 		if err := x.checkHandle(res.Resok.Object, n, "LOOKUP"); err != nil {
 			return err
 		}
@@ -326,7 +343,7 @@ func (x *Exec) Readlink(r Ref) error {
 	if err := x.status(res.Status, want, r); err != nil {
 		return err
 	}
-	if want && string(res.Resok.Data) != r.N.Target {
+	if want && x.LastOK && string(res.Resok.Data) != r.N.Target {
 		return x.errf("READLINK returned %q, the link was created with %q", trunc(string(res.Resok.Data), 40), trunc(r.N.Target, 40))
 	}
 	return nil
@@ -344,7 +361,7 @@ func (x *Exec) Read(r Ref, off uint64, cnt uint32) error {
 	if err := x.status(res.Status, want, r); err != nil {
 		return err
 	}
-	if !want {
+	if !want || !x.LastOK {
 		return nil
 	}
 	var avail uint64 // bytes of the file in the requested range
@@ -362,6 +379,9 @@ func (x *Exec) Read(r Ref, off uint64, cnt uint32) error {
 	min := avail
 	if min > x.M.Lim.RtMax {
 		min = x.M.Lim.RtMax
+	}
+	if x.SpaceMayBind && uint64(len(got)) < min {
+		min = uint64(len(got)) // a hole that cannot be filled ends the read early
 	}
 	if uint64(len(got)) < min || uint64(len(got)) > avail {
 		return x.errf("READ returned %d bytes; the file (size %d) has %d bytes in the requested range (at least %d must be returned)",
@@ -400,11 +420,15 @@ func (x *Exec) Write(r Ref, off uint64, data []byte, cntField uint32, stable nt.
 	if err := x.status(res.Status, want, r); err != nil {
 		return err
 	}
-	if !want {
+	if !want || !x.LastOK {
 		return nil
 	}
 	if uint64(res.Resok.Count) != cnt {
-		return x.errf("WRITE accepted %d of %d bytes although space is not short", res.Resok.Count, cnt)
+		if !x.SpaceMayBind || uint64(res.Resok.Count) > cnt {
+			return x.errf("WRITE accepted %d of %d bytes although space is not short", res.Resok.Count, cnt)
+		}
+		cnt = uint64(res.Resok.Count) // a short write: that much was written
+		x.ShortWrites++
 	}
 	if cnt > 0 {
 		r.N.WriteAt(off, data[:cnt])
@@ -513,7 +537,7 @@ func (x *Exec) createLike(kind nt.Ftype3, dir Ref, name string, target string, e
 	if excl && st != nt.NFS3ERR_NOTSUPP {
 		return x.errf("exclusive CREATE answered %d, want NFS3ERR_NOTSUPP", st)
 	}
-	if !want {
+	if !want || !x.LastOK {
 		return nil
 	}
 	n := x.M.Create(dir.N, name, kind, target)
@@ -600,7 +624,7 @@ func (x *Exec) removeLike(rmdir bool, dir Ref, name string) error {
 	if err := x.status(st, want, refs...); err != nil {
 		return err
 	}
-	if want {
+	if want && x.LastOK {
 		x.M.Remove(dir.N, name)
 		x.Mutations++
 		x.Unflushed = false
@@ -628,7 +652,7 @@ func (x *Exec) Rename(fd Ref, fn string, td Ref, tn string) error {
 	if err := x.status(res.Status, want, refs...); err != nil {
 		return err
 	}
-	if want {
+	if want && x.LastOK {
 		if fd.N.Children[fn] != td.N.Children[tn] { // the same-object no-op writes nothing
 			x.Unflushed = false
 			x.Mutations++
@@ -724,7 +748,7 @@ func (x *Exec) Readdir(dir Ref, plus bool, count uint32) error {
 	if err := x.status(st, want, dir); err != nil {
 		return err
 	}
-	if !want {
+	if !want || !x.LastOK {
 		return nil
 	}
 	return x.compareListing(dir.N, ents, plus)
@@ -772,7 +796,7 @@ func (x *Exec) Fsinfo(r Ref) error {
 	if err := x.status(res.Status, r.N != nil, r); err != nil {
 		return err
 	}
-	if r.N != nil {
+	if r.N != nil && x.LastOK {
 		l := x.M.Lim
 		if uint64(res.Resok.Wtmax) != l.WtMax || uint64(res.Resok.Maxfilesize) != l.MaxFileSize || uint64(res.Resok.Rtmax) != l.RtMax {
 			return x.errf("FSINFO limits changed: %+v vs %+v", res.Resok, l)
@@ -790,7 +814,7 @@ func (x *Exec) Pathconf(r Ref) error {
 	if err := x.status(res.Status, r.N != nil, r); err != nil {
 		return err
 	}
-	if r.N != nil && uint64(res.Resok.Name_max) != x.M.Lim.NameMax {
+	if r.N != nil && x.LastOK && uint64(res.Resok.Name_max) != x.M.Lim.NameMax {
 		return x.errf("PATHCONF name_max changed: %d vs %d", res.Resok.Name_max, x.M.Lim.NameMax)
 	}
 	return nil
@@ -808,7 +832,7 @@ func (x *Exec) Commit(r Ref, off uint64, cnt uint32) error {
 	if err := x.status(res.Status, want, r); err != nil {
 		return err
 	}
-	if want {
+	if want && x.LastOK {
 		x.Unflushed = false
 		return x.checkVerf(res.Resok.Verf, "COMMIT")
 	}
@@ -850,6 +874,12 @@ func (x *Exec) AfterRestart() {
 // (all written blocks, plus holes sampled at their edges), every link its
 // target.
 func CompareTree(api API, m *Model, checkHandles bool) error {
+	return CompareTreeOpt(api, m, checkHandles, false)
+}
+
+// CompareTreeOpt: with writtenOnly, only blocks that hold written data are read (on a full
+// disk a hole cannot be filled and a read of it legitimately ends early).
+func CompareTreeOpt(api API, m *Model, checkHandles bool, writtenOnly bool) error {
 	x := &Exec{M: m}
 	x.Log = []string{"whole-tree comparison"}
 	var walk func(d *MNode, fh nt.Nfs_fh3) error
@@ -891,6 +921,9 @@ func CompareTree(api API, m *Model, checkHandles bool) error {
 			}
 			switch n.Kind {
 			case nt.NF3DIR:
+				if n.Opaque {
+					continue
+				}
 				if err := walk(n, res.Resok.Object); err != nil {
 					return err
 				}
@@ -900,7 +933,7 @@ func CompareTree(api API, m *Model, checkHandles bool) error {
 					return fmt.Errorf("READLINK of %s: status %d, %q; reference %q", n.Path(), rl.Status, trunc(string(rl.Resok.Data), 40), trunc(n.Target, 40))
 				}
 			case nt.NF3REG:
-				if err := compareFile(api, res.Resok.Object, n); err != nil {
+				if err := compareFile(api, res.Resok.Object, n, writtenOnly); err != nil {
 					return err
 				}
 			}
@@ -930,14 +963,20 @@ func (x *Exec) compareListingNoHandle(d *MNode, ents []DirEntry) error {
 }
 
 // compareFile reads every written block of n and samples the holes.
-func compareFile(api API, fh nt.Nfs_fh3, n *MNode) error {
+func compareFile(api API, fh nt.Nfs_fh3, n *MNode, writtenOnly bool) error {
 	if n.Size == 0 {
 		return nil
 	}
 	nblk := (n.Size + BlockSize - 1) / BlockSize
-	want := map[uint64]bool{0: true, nblk - 1: true}
+	want := map[uint64]bool{}
+	if !writtenOnly {
+		want[0], want[nblk-1] = true, true
+	}
 	for b := range n.Blocks {
 		want[b] = true
+		if writtenOnly {
+			continue
+		}
 		if b > 0 {
 			want[b-1] = true
 		}
@@ -945,7 +984,7 @@ func compareFile(api API, fh nt.Nfs_fh3, n *MNode) error {
 			want[b+1] = true
 		}
 	}
-	if nblk <= 64 {
+	if nblk <= 64 && !writtenOnly {
 		for b := uint64(0); b < nblk; b++ {
 			want[b] = true
 		}
@@ -998,7 +1037,7 @@ func sortU64(a []uint64) {
 func (x *Exec) CompareAll() error {
 	x.logf("compare the whole tree with the reference")
 	var cerr error
-	if err := x.call(func() { cerr = CompareTree(x.S.API(), x.M, true) }); err != nil {
+	if err := x.call(func() { cerr = CompareTreeOpt(x.S.API(), x.M, true, x.SpaceMayBind) }); err != nil {
 		return err
 	}
 	if cerr != nil {
